@@ -109,3 +109,8 @@ REGISTRY.update({
     "C25": _mc("explicit-state enumeration of inputs x option product; the real rescale step is observed by wrapping the module-level kernels it calls; independent interpolation and direct edge/epoch overlap oracles; complete product of time vectors for mutational_area",
                "Every bounded ARG x mutation menu x internal-sample decorators x intervals {1,2,3,1000} x iterations {1,5} x segsites x max_shape {3,1000}: breakpoints from (0,0) strictly increasing, each new mean the piecewise-linear image of the old one, no order reversal, shape <= cap, samples untouched; mutational_area equals a direct overlap computation on the observed vectors and on all {0.5,1,2,3}^k vectors."),
 })
+
+REGISTRY.update({
+    "C37": _mc("explicit-state enumeration of inputs (two node numberings) x mutation menu x input time scale x option product; predicate oracle on the returned tree sequence, non-return is a violation",
+               "Every bounded ARG x mutation menu (incl. above-root mutations) x time scale {1,1e4} x num_intervals {1,2,100} x num_iterations {1,10} x match_segregating_sites: rescale_tree_sequence must return a valid tree sequence with identical topology, sites and mutation placement, unchanged sample times, a non-decreasing map of non-sample times and every mutation at its branch midpoint."),
+})
